@@ -30,6 +30,61 @@ theorem utils_IntMin_eq (a b : Int) : utils_IntMin a b = some (intMin a b) := by
   simp only [utils_IntMin, intMin, pure]
   by_cases h : a < b <;> simp [h]
 
+/-! ### BisectLeft: the translated closure under the transcribed `sort.Search` is the model's binary search -/
+
+/-- the closure `func(i int) bool { return s[i] >= v }` -/
+def bsF (a : List Int) (v : Int) : Int → Option Bool :=
+  fun (i : Int) => (do pure (decide ((← (GoSem.idx a i)) ≥ v)) : Option Bool)
+
+theorem bsF_in (a : List Int) (v : Int) (h : Nat) (hlen : h < a.length) :
+    bsF a v (h : Int) = some (decide (a.getD h 0 ≥ v)) := by
+  have h0 : (0 : Int) ≤ (h : Int) := Int.natCast_nonneg _
+  have hidx : GoSem.idx a (h : Int) = some (a.getD h 0) := by
+    simp only [GoSem.idx, h0, if_true, Int.toNat_natCast, List.getD]
+    rw [List.getElem?_eq_getElem hlen]; rfl
+  simp only [bsF, hidx, bind, Option.bind, pure]
+
+theorem searchM_eq (a : List Int) (v : Int) : ∀ (fuel i j : Nat), j ≤ a.length →
+    SrcExt.searchM (bsF a v) fuel (i : Int) (j : Int)
+      = some ((searchAux (fun k => decide (a.getD k 0 ≥ v)) fuel i j : Nat) : Int) := by
+  intro fuel
+  induction fuel with
+  | zero => intro i j _; rfl
+  | succ fuel ih =>
+    intro i j hj
+    unfold SrcExt.searchM searchAux
+    by_cases hlt : i < j
+    · have hlt' : (i : Int) < (j : Int) := by omega
+      have hh : ((i : Int) + (j : Int)) / 2 = (((i + j) / 2 : Nat) : Int) := by omega
+      have hlen : (i + j) / 2 < a.length := by omega
+      have hf := bsF_in a v ((i + j) / 2) hlen
+      simp only [hlt, hlt', if_true, hh, hf, bind, Option.bind]
+      cases hd : decide (a.getD ((i + j) / 2) 0 ≥ v) with
+      | false =>
+        have h1 : ((((i + j) / 2 : Nat) : Int) + 1) = ((((i + j) / 2 + 1 : Nat)) : Int) := by omega
+        simp only [Bool.not_false, if_true, h1]
+        exact ih ((i + j) / 2 + 1) j hj
+      | true =>
+        simp only [Bool.not_true, Bool.false_eq_true, if_false]
+        exact ih i ((i + j) / 2) (by omega)
+    · have hlt' : ¬ (i : Int) < (j : Int) := by omega
+      simp only [hlt, hlt', if_false]
+
+theorem utils_BisectLeft_eq (a : List Int) (v : Int) : utils_BisectLeft a v = some ((bisectLeft a v : Nat) : Int) := by
+  have hdef : utils_BisectLeft a v = (do
+      let s ← GoSem.sliceA a 0 (a.length : Int)
+      SrcExt.sort_Search (s.length : Int) (bsF s v)) := rfl
+  have h1 : (0 : Int) ≤ 0 ∧ (0 : Int) ≤ (a.length : Int) ∧ (a.length : Int) ≤ (a.length : Int) := by omega
+  have h2 : ((a.length : Int) - 0).toNat = a.length := by omega
+  have h3 : ((a.length : Int)).toNat = a.length := by omega
+  have := searchM_eq a v (a.length + 1) 0 a.length (Nat.le_refl _)
+  rw [hdef]
+  simp only [GoSem.sliceA, h1, and_self, if_true, Int.toNat_zero, List.drop_zero, h2,
+    List.take_length, bind, Option.bind, SrcExt.sort_Search, h3, bisectLeft]
+  exact this
+
+theorem utils_BisectLeft_chk_eq (a : List Int) (v : Int) : utils_BisectLeft_chk a v = utils_BisectLeft a v := rfl
+
 end Starcal.SrcTie
 
 namespace Starcal.SrcTie
